@@ -9,15 +9,74 @@ import (
 	"github.com/Flowpack/prunner/zverif/vsched"
 )
 
-type (
-	Bool    = atomic.Bool
-	Int32   = atomic.Int32
-	Int64   = atomic.Int64
-	Uint32  = atomic.Uint32
-	Uint64  = atomic.Uint64
-	Uintptr = atomic.Uintptr
-	Value   = atomic.Value
-)
+type Value = atomic.Value
+
+// typed atomics: the real type inside (the race detector sees the same operations), a scheduling point before each
+type Bool struct{ v atomic.Bool }
+
+func (x *Bool) Load() bool         { vsched.AtomicPoint(&x.v, false); return x.v.Load() }
+func (x *Bool) Store(val bool)     { vsched.AtomicPoint(&x.v, true); x.v.Store(val) }
+func (x *Bool) Swap(new bool) bool { vsched.AtomicPoint(&x.v, true); return x.v.Swap(new) }
+func (x *Bool) CompareAndSwap(old, new bool) bool {
+	vsched.AtomicPoint(&x.v, true)
+	return x.v.CompareAndSwap(old, new)
+}
+
+type Int32 struct{ v atomic.Int32 }
+
+func (x *Int32) Load() int32          { vsched.AtomicPoint(&x.v, false); return x.v.Load() }
+func (x *Int32) Store(val int32)      { vsched.AtomicPoint(&x.v, true); x.v.Store(val) }
+func (x *Int32) Swap(new int32) int32 { vsched.AtomicPoint(&x.v, true); return x.v.Swap(new) }
+func (x *Int32) Add(d int32) int32    { vsched.AtomicPoint(&x.v, true); return x.v.Add(d) }
+func (x *Int32) CompareAndSwap(old, new int32) bool {
+	vsched.AtomicPoint(&x.v, true)
+	return x.v.CompareAndSwap(old, new)
+}
+
+type Int64 struct{ v atomic.Int64 }
+
+func (x *Int64) Load() int64          { vsched.AtomicPoint(&x.v, false); return x.v.Load() }
+func (x *Int64) Store(val int64)      { vsched.AtomicPoint(&x.v, true); x.v.Store(val) }
+func (x *Int64) Swap(new int64) int64 { vsched.AtomicPoint(&x.v, true); return x.v.Swap(new) }
+func (x *Int64) Add(d int64) int64    { vsched.AtomicPoint(&x.v, true); return x.v.Add(d) }
+func (x *Int64) CompareAndSwap(old, new int64) bool {
+	vsched.AtomicPoint(&x.v, true)
+	return x.v.CompareAndSwap(old, new)
+}
+
+type Uint32 struct{ v atomic.Uint32 }
+
+func (x *Uint32) Load() uint32           { vsched.AtomicPoint(&x.v, false); return x.v.Load() }
+func (x *Uint32) Store(val uint32)       { vsched.AtomicPoint(&x.v, true); x.v.Store(val) }
+func (x *Uint32) Swap(new uint32) uint32 { vsched.AtomicPoint(&x.v, true); return x.v.Swap(new) }
+func (x *Uint32) Add(d uint32) uint32    { vsched.AtomicPoint(&x.v, true); return x.v.Add(d) }
+func (x *Uint32) CompareAndSwap(old, new uint32) bool {
+	vsched.AtomicPoint(&x.v, true)
+	return x.v.CompareAndSwap(old, new)
+}
+
+type Uint64 struct{ v atomic.Uint64 }
+
+func (x *Uint64) Load() uint64           { vsched.AtomicPoint(&x.v, false); return x.v.Load() }
+func (x *Uint64) Store(val uint64)       { vsched.AtomicPoint(&x.v, true); x.v.Store(val) }
+func (x *Uint64) Swap(new uint64) uint64 { vsched.AtomicPoint(&x.v, true); return x.v.Swap(new) }
+func (x *Uint64) Add(d uint64) uint64    { vsched.AtomicPoint(&x.v, true); return x.v.Add(d) }
+func (x *Uint64) CompareAndSwap(old, new uint64) bool {
+	vsched.AtomicPoint(&x.v, true)
+	return x.v.CompareAndSwap(old, new)
+}
+
+type Uintptr = atomic.Uintptr
+
+type Pointer[T any] struct{ v atomic.Pointer[T] }
+
+func (x *Pointer[T]) Load() *T       { vsched.AtomicPoint(&x.v, false); return x.v.Load() }
+func (x *Pointer[T]) Store(val *T)   { vsched.AtomicPoint(&x.v, true); x.v.Store(val) }
+func (x *Pointer[T]) Swap(new *T) *T { vsched.AtomicPoint(&x.v, true); return x.v.Swap(new) }
+func (x *Pointer[T]) CompareAndSwap(old, new *T) bool {
+	vsched.AtomicPoint(&x.v, true)
+	return x.v.CompareAndSwap(old, new)
+}
 
 var _ unsafe.Pointer
 
